@@ -58,6 +58,11 @@ def dep_invalidation_propagates(ctx):
                 only_kind = True
                 for e in conds:
                     od = bool_atom_desc(a, e.label[2])
+                    # (testing `!to_execute` before calling the notifier repeats the notifier's own first test - C06.NOTIFIER: it does nothing when the target
+                    # is already marked - and changes nothing)
+                    if od and all((d[0] == "field" and d[1] == "to_execute" and e.label[1] is False) or
+                                  (d[0] == "not" and e.label[1] is True and d[1] and all(x[0] == "field" and x[1] == "to_execute" for x in d[1])) for d in od):
+                        continue
                     if not all(d[0] == "call" and d[1].endswith("PartialEq>::eq") and any(msg_field_atoms("Invalidated", "kind")(x) for x in d[2]) for d in od):
                         only_kind = False
                     # ... and the case that must get through is the invalidation of a *Build* dependency (its outputs are about to change): the test may
